@@ -82,11 +82,16 @@ func (e *Engine) VerifyFunction(fn *ssa.Function, con *Contract) (res *FnResult)
 			}
 		}
 	}
+	var fvCells []string
 	for _, fv := range fn.FreeVars {
 		v := st.freshVal(fv.Type(), "fv_"+fv.Name())
 		st.env[fv] = v
 		if _, isPtr := fv.Type().Underlying().(*types.Pointer); isPtr {
 			fx.sol.Assert(tCmp(">", v.S, "0")) // captured variables are addresses of live cells
+			for _, prev := range fvCells {
+				fx.sol.Assert(tNot(tEq(prev, v.S))) // distinct captured variables live in distinct cells
+			}
+			fvCells = append(fvCells, v.S)
 		}
 	}
 	// request-local ghost state that starts empty
